@@ -93,6 +93,13 @@ class C10(props.Prop):
             o = gen_cmd.CmdModel(spec['model']).on_tokens(toks)
             spec['opts'] += gen_cmd.gen_compare_opts(rng,
                                                      (o.exit, o.out, o.err))
+        if scen in ('faults', 'golden_slow') and rng.random() < 0.35:
+            # cross-check command that may hang / spin / blow up as well
+            spec['model_cc'] = fault_model(rng, toks)
+            if rng.random() < 0.4:
+                spec['opts'] += ['--timeout-cc', str(rng.choice([0.5, 1.0, 2.5]))]
+            if rng.random() < 0.4:
+                spec['opts'].append('--ignore-output-cc')
         spec['prlimit'] = rng.random() < 0.7
         spec['sched']['line_gap'] = None
         spec['sched']['wall_cap'] = 20.0
@@ -130,6 +137,7 @@ class C10(props.Prop):
                  if not (d['file'] or '').startswith('$SB/in')]
         golden_inv = [d for d in rec.inv
                       if (d['file'] or '').startswith('$SB/in')]
+        golden_main = [d for d in golden_inv if d['which'] != 'cc']
         # (f) match string absent / golden timing out with a match string
         if scen in ('match_absent', 'match_golden_timeout'):
             if res.outcome == 'exception':
@@ -170,7 +178,13 @@ class C10(props.Prop):
                       or (main[0].get('behaviour') or ['normal'])[0] != 'normal')
             if faulty:
                 nfault += 1
-            ref = refrule.accepts(cfg, g, run, None, None)
+            ccs = [d for d in invs if d['which'] == 'cc']
+            run_cc = props.run_tuple(ccs[0]) if ccs else None
+            ref = refrule.accepts(cfg, g, run, gcc, run_cc)
+            if ccs and ((ccs[0].get('behaviour') or ['normal'])[0] != 'normal'
+                        or ccs[0]['timed_out']):
+                faulty = True
+                nfault += 1
             if c['verdict'] and not ref:
                 v.violate(
                     'limit-exceeded-accepted',
@@ -212,10 +226,23 @@ class C10(props.Prop):
                       f'ddSMT exited', first=alive[0]['idx'])
         # (e) limits
         def_t = None
-        if golden_inv and golden_inv[0].get('t_done') is not None:
-            def_t = round((golden_inv[0]['t_done'] - golden_inv[0]['t0'] + 1) * 1.5, 2)
+        if golden_main and golden_main[0].get('t_done') is not None:
+            def_t = round((golden_main[0]['t_done'] - golden_main[0]['t0'] + 1) * 1.5, 2)
         want_t = cfg['timeout'] if cfg['timeout'] is not None else def_t
+        golden_cc_inv = [d for d in golden_inv if d['which'] == 'cc']
+        def_tcc = None
+        if golden_cc_inv and golden_cc_inv[0].get('t_done') is not None:
+            def_tcc = round((golden_cc_inv[0]['t_done'] - golden_cc_inv[0]['t0'] + 1) * 1.5, 2)
+        want_tcc = cfg['timeout_cc'] if cfg['timeout_cc'] is not None else def_tcc
         for d in cands:
+            if d['which'] == 'cc':
+                ta = d.get('timeout_arg')
+                if want_tcc is not None and (ta is None or abs(ta - want_tcc) > 0.011):
+                    v.violate('wrong-time-limit', 'C10:wrong-time-limit:cross-check',
+                              f'cross-check run waited with limit {ta}, '
+                              f'expected {want_tcc}')
+                    break
+                continue
             if d['which'] != 'main':
                 continue
             ta = d.get('timeout_arg')
@@ -244,7 +271,8 @@ class C10(props.Prop):
         # (d) bounded total time
         if want_t is not None and golden_inv:
             tg = (golden_inv[0].get('t_done') or golden_inv[0].get('t_kill') or 0) - golden_inv[0]['t0']
-            bound = max(tg, want_t if golden_inv[0]['timed_out'] else tg) + (len(cands) + 1) * want_t + 1.0
+            lim = max(want_t, want_tcc or 0)
+            bound = max(tg, want_t if golden_inv[0]['timed_out'] else tg) + (len(cands) + 2) * lim + 1.0
             if res.sim_time > bound:
                 v.violate('time-bound', 'C10:time-bound',
                           f'the run took {res.sim_time:.2f}s of simulated time, '
